@@ -22,4 +22,11 @@ def run(ctx):
     PICK.prefix = "C06.pick_second"
     ex, obs = add_to_ctx(ctx, PICK, {})
     n += len(obs)
-    return f"arg-reduction pair algebra and _pick_second: {n} obligations."
+    from ..contracts import argreduce as AR
+    from . import finalize_proofs
+
+    finalize_proofs._patch()
+    c, callees = AR.chunk_argreduce_contract()
+    ex, obs = add_to_ctx(ctx, c, callees)
+    n += len(obs)
+    return f"arg-reduction pair algebra, _pick_second, chunk_argreduce (reports the global position idx[p] of the block-local extreme p, a member of the group with the reported value): {n} obligations."
